@@ -340,7 +340,7 @@ def run(ctx):
             ctx.violation("proof obligations of Properties_C14.v do not check", {"broken": "Properties_C14.v", "detail": proof}, found_input=False)
         if uncert and not nmism:
             ctx.violation("solve_checked (proved certificate) does not certify the model's own plan",
-                          {"broken": "optimality of the model's plan (c14_optimal_partial applies only to certified plans)", "case": uncert[0]},
+                          {"broken": "certificate construction cert_of (untrusted) for the model's plan; c14_optimal itself does not depend on it", "case": uncert[0]},
                           found_input=False)
         if vmbad:
             ctx.violation("extracted model disagrees with vm_compute", {"broken": "extraction cross-check", "detail": vmbad[:3]}, found_input=False)
@@ -375,8 +375,9 @@ def run(ctx):
         "domain = the property's quantifier: non-negative supplies/demands, total supply <= total demand (possibly after balanceDemand), "
         ">= 1 source and >= 1 sink; outside it only equality of the thrown error with the model is compared",
         "the 'sink of positive demand' clause presupposes that some sink has positive demand",
-        "optimality of the sweep itself is proved on three finite boxes and validated per run by the proved checker (n*m <= %d) and by an "
-        "independent min-cost flow (n*m <= 64); not proved unbounded" % CP_LIMIT,
+        "optimality of the sweep itself is proved for all inputs of the model (c14_optimal: value-function invariant of the event sweep + "
+        "lower bound for every valid plan; files coq/Transp1dOpt*.v); the bounded theorems, the proved checker on the C++ plans (n*m <= %d) and "
+        "the independent min-cost flow (n*m <= 64) remain as per-run validation of the model<->code tie" % CP_LIMIT,
         "model tied to the code by exact comparison on the cases of this run",
     ])
 
